@@ -934,6 +934,9 @@ def run(ctx):
         packs += [sel[i : i + PACK] for i in range(0, len(sel), PACK)]
     ncases, kn, pool = names_cases(ctx.tier)
     scases, ks = struct_cases(ctx.tier)
+    # warm the parent before the workers fork (ANTLR's lazily built DFA, jinja2, sympy caches are inherited)
+    judge(names_model({}), ctx.seed, 1)
+    judge(expr_model(packs[0]), ctx.seed, 1)
     with common.Pool(init=_init) as pool_:
         re_ = pool_.map(job_expr, [(p, ctx.seed, npoints) for p in packs], chunksize=4)
         rn = pool_.map(job_names, [(r, ctx.seed, npoints) for r in ncases], chunksize=8)
